@@ -10,6 +10,7 @@ import (
 	"fmt"
 	"os"
 	"path/filepath"
+	"reflect"
 	"strings"
 )
 
@@ -126,7 +127,11 @@ func init() {
 				}
 			}
 		}
+		cfg0 := vRenderValue(reflect.ValueOf(c), 0)
+		def0 := vRenderValue(reflect.ValueOf(&defaultConfig), 0)
 		call()
+		// resolving a location changes neither the Config it is resolved for nor the package defaults
+		cfgSame := vRenderValue(reflect.ValueOf(c), 0) == cfg0 && vRenderValue(reflect.ValueOf(&defaultConfig), 0) == def0
 		isTrimBathBuild = savedTrim
 		fs := make([]string, len(frames))
 		for i, f := range frames {
@@ -134,6 +139,6 @@ func init() {
 		}
 		fmt.Fprintf(r.w, "op snappath fn=%s dir=%s ext=%s test=%s standalone=%s trim=%s frames=%s\n",
 			fn, dir, ext, vhex([]byte(name)), vb(standalone), vb(o.Sort), strings.Join(fs, ","))
-		fmt.Fprintf(r.w, "snappath %d probe=%s path=%s\n", r.idx, vb(vProbeCalibrated(r)), vhex([]byte(p)))
+		fmt.Fprintf(r.w, "snappath %d probe=%s cfgsame=%s path=%s\n", r.idx, vb(vProbeCalibrated(r)), vb(cfgSame), vhex([]byte(p)))
 	}
 }
